@@ -53,7 +53,7 @@ class Program:
         return e
 
 
-def explore(program, body_fn, contracts=None, hooks=None, max_runs=4000, loop_contracts=None):
+def explore(program, body_fn, contracts=None, hooks=None, max_runs=4000, loop_contracts=None, fork_functions=()):
     """body_fn(eng) -> (value, env).  Returns list[RunResult] covering all decision sequences."""
     forced = set()
     while True:
@@ -68,6 +68,7 @@ def explore(program, body_fn, contracts=None, hooks=None, max_runs=4000, loop_co
                     raise Unsupported(f"more than {max_runs} decision paths")
                 eng = program.engine(contracts, hooks)
                 eng.loop_contracts = dict(loop_contracts or {})
+                eng.fork_functions = frozenset(fork_functions)
                 eng.forced_sites = set(forced)
                 eng.oracle = Oracle(prefix)
                 eng.frames.append(Frame("<harness>", {}, []))
